@@ -22,7 +22,7 @@ theorem C11_scan (rnd : Rat → Rat) (o : Oracle) (k : Nat) (globalDry : Bool) (
     intro e he
     have := scanGroup_entries rnd o k globalDry cfg st0 g view h nowMock nowReal e he
     cases this with
-    | metrics id b => rfl
+    | metrics n hn b => rfl
     | force hf =>
       rw [hd] at hf
       cases hf with
